@@ -16,6 +16,9 @@ type GraphOpts struct {
 	SmallModels bool // fewer types/relations (used where orders are enumerated exhaustively)
 	Big         bool // up to 4 object types x 6 relations, operator nesting one level deeper (thorough tier)
 	Interlock   bool // in a fifth of the models, redefine the relations of one object type as a random web of interlocking tuple cycles
+	Names       bool // in a quarter of the models, rename types and relations: upper case, names that differ only in case, names starting with "R" (the prefix of the builder's internal cycle placeholders), '-', '.', '/' inside names
+	Deep        bool // rarely (1 in 25) append a chain of 26..70 relations, each one hop or rewrite away from the next
+	Depth3      bool // in a sixth of the models allow three operator levels (cousin operators) also outside the Big profile
 }
 
 var (
@@ -25,11 +28,12 @@ var (
 )
 
 type graphCtx struct {
-	t     *rapid.T
-	o     GraphOpts
-	rels  []string // relation names of every object type
-	cur   int      // index of the relation being generated
-	nThis int
+	t      *rapid.T
+	o      GraphOpts
+	rels   []string // relation names of every object type
+	cur    int      // index of the relation being generated
+	nThis  int
+	depth3 bool
 }
 
 // GraphModel draws a model of the graph profile. Every object type has the same relation names
@@ -59,6 +63,9 @@ func GraphModel(t *rapid.T, o GraphOpts) *Model {
 	allTypes = append(allTypes, gObjTypes[:nObj]...)
 	useCond := false
 	c := &graphCtx{t: t, o: o, rels: gRelNames[:nRel]}
+	if o.Depth3 && !o.SmallModels {
+		c.depth3 = rapid.IntRange(0, 5).Draw(t, "depth3") == 0
+	}
 	for i := 0; i < nObj; i++ {
 		td := TypeDef{Name: gObjTypes[i]}
 		// tupleset relation
@@ -141,7 +148,147 @@ func GraphModel(t *rapid.T, o GraphOpts) *Model {
 			{Name: "c2", Params: []Param{{Name: "y", Type: "string"}}, Expr: "y == \"a\""},
 		}
 	}
+	if o.Deep && rapid.IntRange(0, 24).Draw(t, "deep") == 0 {
+		deepChain(t, m)
+	}
+	if o.Names && rapid.IntRange(0, 3).Draw(t, "names") == 0 {
+		renameGraphModel(t, m)
+	}
 	return m
+}
+
+// deepChain appends relations k00..kNN (26 <= N <= 70) to the first object type: each is one direct-userset hop, one
+// tuple-to-userset hop or one computed rewrite away from the next, sometimes in a union with an earlier relation; the
+// last one is assignable to the first terminal type. Well-founded by construction (no back references).
+func deepChain(t *rapid.T, m *Model) {
+	var td *TypeDef
+	for i := range m.Types {
+		if len(m.Types[i].Rels) > 0 {
+			td = &m.Types[i]
+			break
+		}
+	}
+	if td == nil {
+		return
+	}
+	// the tupleset must be able to stay inside the type for the tuple-to-userset hops of the chain
+	td.Rels[0].Restr = append([]Restriction{{Type: td.Name}}, td.Rels[0].Restr...)
+	n := rapid.IntRange(26, 70).Draw(t, "deepN")
+	name := func(i int) string { return "k" + string(rune('0'+i/10)) + string(rune('0'+i%10)) }
+	for i := 0; i < n; i++ {
+		rd := Relation{Name: name(i)}
+		if i == n-1 {
+			rd.Rw, rd.Restr = &Rewrite{Kind: This}, []Restriction{{Type: m.Types[0].Name}}
+		} else {
+			switch rapid.IntRange(0, 3).Draw(t, "deepLink") {
+			case 0:
+				rd.Rw, rd.Restr = &Rewrite{Kind: This}, []Restriction{{Type: td.Name, Rel: name(i + 1)}}
+			case 1:
+				rd.Rw = &Rewrite{Kind: TTU, Rel: name(i + 1), Tupleset: "p"}
+			default:
+				rd.Rw = &Rewrite{Kind: Computed, Rel: name(i + 1)}
+			}
+			if rapid.IntRange(0, 5).Draw(t, "deepUnion") == 0 {
+				other := &Rewrite{Kind: Computed, Rel: name(rapid.IntRange(i+1, n-1).Draw(t, "deepChord"))}
+				if rd.Rw.Kind == This {
+					rd.Rw = &Rewrite{Kind: Union, Kids: []*Rewrite{rd.Rw, other}}
+				} else {
+					rd.Rw = &Rewrite{Kind: Union, Kids: []*Rewrite{other, rd.Rw}}
+				}
+			}
+		}
+		td.Rels = append(td.Rels, rd)
+	}
+	// an entry point with an early name so that sorted start orders descend the whole chain
+	if len(td.Rels) > 1 && rapid.Bool().Draw(t, "deepEntry") {
+		td.Rels[1].Rw = &Rewrite{Kind: Union, Kids: []*Rewrite{td.Rels[1].Rw, {Kind: Computed, Rel: name(0)}}}
+	}
+}
+
+var (
+	gAltTerm = []string{"User", "R", "u-1", "x.y", "USER", "E"}
+	gAltObj  = []string{"Repo", "Role", "R", "Doc", "DOC", "d/1", "RR", "Rx-1"}
+	gAltRel  = []string{"A", "R", "Ra", "a-b", "a.b", "B", "r/1", "Rel"}
+)
+
+// renameGraphModel renames some types and relations consistently everywhere they are used. Names that differ from
+// another name only in case are made on purpose ("doc"/"Doc"/"DOC", "a"/"A"); hazard names that are meant to be
+// undefined stay undefined.
+func renameGraphModel(t *rapid.T, m *Model) {
+	tmap, rmap := map[string]string{}, map[string]string{}
+	usedT, usedR := map[string]bool{}, map[string]bool{"zz": true}
+	for _, td := range m.Types {
+		usedT[td.Name] = true
+		for _, r := range td.Rels {
+			usedR[r.Name] = true
+		}
+	}
+	for _, td := range m.Types {
+		if rapid.IntRange(0, 1).Draw(t, "renT") == 0 {
+			pool := gAltObj
+			if len(td.Rels) == 0 {
+				pool = gAltTerm
+			}
+			n := rapid.SampledFrom(pool).Draw(t, "newT")
+			if !usedT[n] {
+				usedT[n] = true
+				tmap[td.Name] = n
+			}
+		}
+	}
+	var relNames []string
+	seen := map[string]bool{}
+	for _, td := range m.Types {
+		for _, r := range td.Rels {
+			if !seen[r.Name] && len(r.Name) == 1 { // the short pool names only: p and the chain names stay
+				seen[r.Name] = true
+				relNames = append(relNames, r.Name)
+			}
+		}
+	}
+	for _, rn := range relNames {
+		if rapid.IntRange(0, 2).Draw(t, "renR") == 0 {
+			n := rapid.SampledFrom(gAltRel).Draw(t, "newR")
+			if !usedR[n] {
+				usedR[n] = true
+				rmap[rn] = n
+			}
+		}
+	}
+	T := func(s string) string {
+		if n, ok := tmap[s]; ok {
+			return n
+		}
+		return s
+	}
+	R := func(s string) string {
+		if n, ok := rmap[s]; ok {
+			return n
+		}
+		return s
+	}
+	for i := range m.Types {
+		td := &m.Types[i]
+		td.Name = T(td.Name)
+		for j := range td.Rels {
+			r := &td.Rels[j]
+			r.Name = R(r.Name)
+			for k := range r.Restr {
+				r.Restr[k].Type = T(r.Restr[k].Type)
+				if r.Restr[k].Rel != "" {
+					r.Restr[k].Rel = R(r.Restr[k].Rel)
+				}
+			}
+			r.Rw.Walk(func(x *Rewrite, _ int) {
+				if x.Rel != "" {
+					x.Rel = R(x.Rel)
+				}
+				if x.Tupleset != "" {
+					x.Tupleset = R(x.Tupleset)
+				}
+			})
+		}
+	}
 }
 
 func (c *graphCtx) pickRel() string {
@@ -161,7 +308,7 @@ func (c *graphCtx) pickRel() string {
 func (c *graphCtx) rewrite(depth int) *Rewrite {
 	k := rapid.IntRange(0, 11).Draw(c.t, "kind")
 	maxDepth := 2
-	if c.o.Big {
+	if c.o.Big || c.depth3 {
 		maxDepth = 3
 	}
 	if depth >= maxDepth && k > 6 {
